@@ -1,7 +1,8 @@
 """C02 generators: canonical, *sanitised* operator expressions per class (opbuild JSON format).
 
-opbuild.gen draws random children (Zero, Permutation, Chol(upper) ...) which drag the known defects of OTHER properties
-(C01: Zero children, float32-only permutations, Chol upper orientation) into half of all composites.  C02 needs operands
+opbuild.gen draws random children (Zero, Permutation ...) which drag the known defects of OTHER properties
+(C01: Zero children, float32-only permutations) into half of all composites.  (Chol(upper=True) was excluded too while its
+orientation was a C01 finding; it is repaired at HEAD and both orientations are generated again.)  C02 needs operands
 whose own dense meaning is not in doubt, so every composite here has children from a fixed safe set; the seed only picks
 the integer values.
 
@@ -51,10 +52,31 @@ def _cdiag(rng, batch, n, pos=False):
 
 def _root(rng, batch, n, r, cls="Root", full=False):
     root = ob.tt(ob.rand_t(rng, list(batch) + [n, r], -2, 2))
-    if full:       # full rank: lower triangular with positive diagonal
-        root = torch.tril(root)
-        root = root - torch.diag_embed(torch.diagonal(root, dim1=-2, dim2=-1)) + torch.diag_embed(ob.tt(ob.rand_t(rng, list(batch) + [n], 1, 3)))
+    if full:
+        # full rank: every other draw a SQUARE, NON-TRIANGULAR integer root (its root and inverse root are different matrices, so
+        # that caches handed from one operator to another are distinguishable); else lower triangular with positive diagonal
+        general = bool(rng.getrandbits(1)) and n == r
+        if general:
+            for _ in range(20):
+                if bool((torch.linalg.det(root).abs() >= 0.5).all()) and not bool((torch.tril(root) == root).all()):
+                    break
+                root = ob.tt(ob.rand_t(rng, list(batch) + [n, r], -2, 2))
+            else:
+                general = False
+        if not general:
+            root = torch.tril(root)
+            root = root - torch.diag_embed(torch.diagonal(root, dim1=-2, dim2=-1)) + torch.diag_embed(ob.tt(ob.rand_t(rng, list(batch) + [n], 1, 3)))
     return {"cls": cls, "root": ob.from_torch(root)}
+
+
+def general_root(rng, batch, n):
+    """RootLinearOperator over a square full-rank root that is NOT triangular (positive definite R R^T)"""
+    for _ in range(50):
+        root = ob.tt(ob.rand_t(rng, list(batch) + [n, n], -2, 2))
+        if bool((torch.linalg.det(root).abs() >= 0.5).all()) and not bool((torch.tril(root) == root).all()) \
+                and not bool((torch.triu(root) == root).all()):
+            return {"cls": "Root", "root": ob.from_torch(root)}
+    return _root(rng, batch, n, n, "Root", full=True)
 
 
 def _toeplitz(rng, batch, n, psd):
@@ -89,8 +111,9 @@ def inst(rng, cls, batch=(), n=4, psd=False, rect=None):
     if cls == "Triangular":
         return _tri(rng, batch, n, bool(rng.getrandbits(1)))
     if cls == "Chol":
-        t = _tri(rng, batch, n, False)            # lower factor only: Chol(upper=True) is a C01 finding
-        return {"cls": "Chol", "t": t["t"], "upper": False}
+        up = bool(rng.getrandbits(1))             # both orientations: L L^T and R^T R
+        t = _tri(rng, batch, n, up)
+        return {"cls": "Chol", "t": t["t"], "upper": up}
     if cls == "Root":
         return _root(rng, batch, n, n if psd else max(1, n - 1), "Root", full=psd)
     if cls == "LowRankRoot":
@@ -235,7 +258,10 @@ def nodes(e):
 
 COMPOSITES = ["MatmulLL", "MatmulLU", "MatmulUL", "MatmulUU", "MatmulLLt", "MatmulLtL", "MatmulDiagDense", "MatmulDenseDiag",
               "SumDiagToeplitz", "SumMatmulLLtDiag", "KronMatmulLLtDense", "KronDiagDense", "AddedDiagMatmulLLt", "CMulMatmulLU",
-              "RootOfTriangular", "MatmulKronDiag", "SumKronOfMatmul", "CholOfMatmulFactor"]
+              "RootOfTriangular", "MatmulKronDiag", "SumKronOfMatmul", "CholOfMatmulFactor",
+              # upper-orientation operands (R^T R), alone and inside every container family
+              "CholUpper", "SumCholUpperDiag", "KronCholUpperDense", "RootOfUpperTriangular", "AddedDiagCholUpper", "CMulCholUpper",
+              "MatmulCholUpperDense"]
 
 
 def _tri_pair_t(rng, batch, n):
@@ -289,6 +315,22 @@ def composite(rng, name, batch=(), n=4):
     if name == "CholOfMatmulFactor":         # L L^T written with the Cholesky class next to the lazy product of the same factor
         L, Lt = _tri_pair_t(rng, batch, n)
         return {"cls": "Sum", "ops": [{"cls": "Chol", "t": L["t"], "upper": False}, mm(L, Lt)]}, True
+    if name == "CholUpper":
+        return {"cls": "Chol", "t": _tri(rng, batch, n, True)["t"], "upper": True}, True
+    if name == "SumCholUpperDiag":
+        return {"cls": "Sum", "ops": [{"cls": "Chol", "t": _tri(rng, batch, n, True)["t"], "upper": True}, _diag(rng, batch, n, pos=True)]}, True
+    if name == "KronCholUpperDense":
+        return {"cls": "Kron", "ops": [{"cls": "Chol", "t": _tri(rng, batch, 2, True)["t"], "upper": True}, _psd_dense(rng, batch, h)]}, True
+    if name == "RootOfUpperTriangular":
+        return {"cls": "Root", "root": _tri(rng, batch, n, True)}, True
+    if name == "AddedDiagCholUpper":
+        return {"cls": "AddedDiag", "base": {"cls": "Chol", "t": _tri(rng, batch, n, True)["t"], "upper": True},
+                "diag": _cdiag(rng, batch, n, pos=True)}, True
+    if name == "CMulCholUpper":
+        return {"cls": "ConstantMul", "base": {"cls": "Chol", "t": _tri(rng, batch, n, True)["t"], "upper": True},
+                "c": ob.rand_t(rng, [], 1, 3)}, True
+    if name == "MatmulCholUpperDense":
+        return mm({"cls": "Chol", "t": _tri(rng, batch, n, True)["t"], "upper": True}, _dense(rng, batch, n, n, -2, 2)), False
     raise ValueError(name)
 
 
